@@ -26,6 +26,7 @@ type Obligation struct {
 	fc      *FuncCtx
 	Result  *SolveResult
 	MustSat bool // cover obligation: expected satisfiable
+	ShortLimit bool // listed as a known finding: expected to fail, solved with a short limit
 	Obs     []namedTerm // what a replay on the real code can observe at this point (results, scanner state)
 	// OwnTags: the clause named properties itself (otherwise Tags are the function's)
 	OwnTags bool
